@@ -91,14 +91,22 @@ def run_case(st):
         loop.close()
 
 
-def main():
-    rep = evidence.Report("TitanWire", "model_checking")
-    rep.extension = True
+OWN = {"C19": {"RoundTrip", "ContentNeverMangled"}}
+
+
+def main(pid=None, rep=None, finish=True):
+    own = OWN.get(pid, {"RoundTrip", "ContentNeverMangled", "RefusesOnlyOddSchemes"})
+    if rep is None:
+        rep = evidence.Report("TitanWire", "model_checking")
+        rep.extension = True
     try:
         r, states = tlc.dump_states("TitanWire", "MC_TitanWire.cfg", timeout=300)
         rep.tlc("TitanWire(design)", r)
         if not r.ok:
             raise tlc.TLCError("design variant of TitanWire violates %s" % r.violated)
+        dev = tlc.expect_caught("TitanWire", "MC_TitanWire.cfg", {"DevUnescaped": ["RoundTrip"]}, timeout=300)
+        if dev[0][1] is None:
+            raise tlc.TLCError("self-test: DevUnescaped not caught")
         n = 0
         for st in states:
             st = plain(st)
@@ -107,31 +115,33 @@ def main():
             got, detail = run_case(st)
             n += 1
             want = st["out"]
-            safe = st["path"] != "semicolon" and st["token"] not in ("semicolon", "sizeInside") and st["mime"] != "param"
+            semi = st["path"] == "semicolon" or st["token"] in ("semicolon", "sizeInside", "space") or st["mime"] == "param"
+            safe = True
             bad = []
             if got["k"] == "parsed":
                 if safe and any(got[f] != "same" for f in ("path", "token", "size", "mime", "content")):
                     bad.append("RoundTrip")
                 if got["content"] not in ("same", "dropped"):
                     bad.append("ContentNeverMangled")
-            elif got["k"] == "clientRefuses" and st["scheme"] in ("gemini", "titan"):
+            elif got["k"] == "clientRefuses" and st["scheme"] in ("gemini", "titan") and not semi:
                 bad.append("RefusesOnlyOddSchemes")
             elif got["k"] == "serverRefuses" and safe and st["scheme"] in ("gemini", "titan"):
                 bad.append("RoundTrip")
             desc = "upload(%r, token=%r, mime=%r): %s (%s), specification %s" % (
                 SCHEMES[st["scheme"]] + "h.ex" + PATHS[st["path"]], TOKENS[st["token"]], MIMES[st["mime"]], got, detail, want)
-            if bad:
-                rep.violation({"formula": bad[0], "module": "TitanWire"}, "%s falsified: %s" % (bad, desc), None)
+            if bad and (set(bad) & own):
+                rep.violation({"formula": sorted(set(bad) & own)[0], "module": "TitanWire"}, "%s falsified: %s" % (bad, desc), None)
+            elif bad:
+                rep.drifted("TitanWire (%s): %s" % (bad, desc))
             elif got != want:
                 rep.drifted("the Titan request line departs from TitanWire.tla: %s" % desc)
         rep.add("titan_wire_cases", n)
         rep.add("traces_validated_against_impl", n)
-        rep.note("observations (outside the listed properties): GeminiClient.upload escapes nothing - a literal ';' in the path cuts the target, "
-                 "a ';' in the token cuts the token, a token containing ';size=0' turns the upload into a zero-byte request, a media-type parameter is lost; "
-                 "upper-case schemes are refused by upload() although get() accepts them")
-        sys.exit(rep.finish())
+        rep.note("observation: upper-case schemes are refused by upload() although get() accepts them")
+        if finish:
+            sys.exit(rep.finish())
     except tlc.TLCError as e:
-        evidence.machinery_failure("TitanWire", e)
+        evidence.machinery_failure(pid or "TitanWire", e)
 
 
 if __name__ == "__main__":
